@@ -600,6 +600,8 @@ class C05(Prop):
                 comp["label"], comp["final"] = None, False
             return IF.enc({"version": cur, "compose": comp, "images": cells}), True
         if op == "rpms":
+            if a.get("malformed"):
+                return None, False                      # correspondence of the refusal class only
             comp = dict(a["doc"]["payload"]["compose"])
             comp.setdefault("label", None)
             comp.setdefault("final", False)
